@@ -1,7 +1,6 @@
 (* Property C02 — unresolvable calls are reported accurately and never dispatched silently.
-   Property theorems only. Classification of the two error outcomes of the specification; the error record and the
-   "no definition runs" theorems on the model (Errors) are added when Proofs/ResolveProofs.v is assembled. *)
-From Y2 Require Import Model.Registry Spec.Dispatch Proofs.SpecProofs.
+   Property theorems only. *)
+From Y2 Require Import Model.Registry Model.Compile Spec.Dispatch Proofs.Interfaces Proofs.SpecProofs Proofs.CorollaryProofs.
 
 Theorem C02_no_definition_iff : forall R defs args,
   spec_dispatch R defs args = NoDefinition <->
@@ -23,3 +22,16 @@ Theorem C02_outcome_unique : forall R defs cand o,
   spec_dispatch_among R defs cand = o <-> outcome_ok R defs cand o.
 Proof. exact spec_dispatch_among_iff. Qed.
 Print Assumptions C02_outcome_unique.
+
+(* On update's tables (the model of update + method::resolve), for every well-formed registry and every legal tuple:
+   when no definition is applicable the call reads the method's own not-implemented stub, when several are applicable
+   and none dominates it reads the method's own ambiguity stub, and it reads a definition's thunk only when the
+   specification says that definition runs: an unresolvable call is never dispatched silently. *)
+Theorem C02_error_words : forall R C mi m args,
+  wf_registry R -> compile R = Ok C -> nth_error (r_methods R) mi = Some m -> legal R m args ->
+  exists cs, map (key (o_lat C)) cs = args /\
+    (spec_dispatch R (meth_defs R m) args = NoDefinition -> resolve C mi (actuals_of C (m_shape m) cs) = Ok (WNi mi)) /\
+    (spec_dispatch R (meth_defs R m) args = Ambiguous -> resolve C mi (actuals_of C (m_shape m) cs) = Ok (WAmb mi)) /\
+    (forall i, resolve C mi (actuals_of C (m_shape m) cs) = Ok (WFn mi i) -> spec_dispatch R (meth_defs R m) args = Run i).
+Proof. exact error_words. Qed.
+Print Assumptions C02_error_words.
